@@ -34,8 +34,8 @@ structure InvV (t : Topo) (v : View) : Prop where
   down : ∀ p e, t.isChild p e = true → v.alive p = true → v.running p = true →
     v.downOpen e = true ∧ v.cleared p = false
   upc : ∀ g, g ≠ 0 → v.running g = false → v.upOpen g = false
-  upe : ∀ e, e ≠ 0 → v.running e = true → v.alive e = true → v.upOpen e = false →
-    v.gone (t.parent e) = true ∨ v.downOpen e = false
+  upo : ∀ n, v.running n = true → v.upOpen n = true
+  dclosed : ∀ p e, t.isChild p e = true → v.running p = false → v.downOpen e = false
   sent : ∀ p e, t.isChild p e = true → v.running p = false → v.sent e = true ∨ v.gone e = true
 
 /-- the invariant of all runs -/
@@ -47,7 +47,8 @@ theorem inv_init (t : Topo) : Inv t init where
   clients := fun h => by simp [State.view, init] at h
   down := fun _ _ _ _ _ => ⟨rfl, rfl⟩
   upc := fun _ _ h => by simp [State.view, init] at h
-  upe := fun _ _ _ _ h => by simp [State.view, init] at h
+  upo := fun _ _ => rfl
+  dclosed := fun _ _ _ h => by simp [State.view, init] at h
   sent := fun _ _ _ h => by simp [State.view, init] at h
 
 /-! ### view operations -/
@@ -90,38 +91,30 @@ theorem InvV.kill {t : Topo} {v : View} (h : InvV t v) (w : Nat) (hw : w ≠ 0) 
     intro i x; simp only [killV, upd_apply] at x; split at x <;> simp_all
   have hg := View.gone_mono (v := v) (v' := killV v w) hal (fun _ x => x)
   refine ⟨?_, h.wrk, h.clients, fun p e hc ha hr => h.down p e hc (hal p ha) hr, h.upc,
-    fun e he hr ha hu => ?_, fun p e hc hr => ?_⟩
+    h.upo, h.dclosed, fun p e hc hr => ?_⟩
   · have := h.srv
     simp only [killV, upd_apply]
     have : (0 : Nat) ≠ w := fun x => hw x.symm
     simp [this, h.srv]
-  · rcases h.upe e he hr (hal e ha) hu with h1 | h1
-    · exact Or.inl (hg _ h1)
-    · exact Or.inr h1
   · rcases h.sent p e hc hr with h1 | h1
     · exact Or.inl h1
     · exact Or.inr (hg _ h1)
 
 theorem InvV.cClose {t : Topo} {v : View} (h : InvV t v) (c : Nat) : InvV t (cCloseV v c) := by
-  refine ⟨h.srv, h.wrk, fun hr c' => ?_, h.down, h.upc, h.upe, h.sent⟩
+  refine ⟨h.srv, h.wrk, fun hr c' => ?_, h.down, h.upc, h.upo, h.dclosed, h.sent⟩
   have := h.clients hr c'
   simp only [cCloseV, upd_apply]
   split <;> simp_all
 
-theorem InvV.upClose {t : Topo} {v : View} (h : InvV t v) (n : Nat)
-    (heof : (v.alive (t.parent n) && v.downOpen n) = false) : InvV t (upCloseV v n) := by
-  refine ⟨h.srv, h.wrk, h.clients, h.down, fun g hg hr => ?_, fun e he hr ha hu => ?_, h.sent⟩
-  · have := h.upc g hg hr
-    simp only [upCloseV, upd_apply]; split <;> simp_all
-  · simp only [upCloseV, upd_apply] at hu
-    by_cases hen : e = n
-    · subst hen
-      simp only [Bool.and_eq_false_iff] at heof
-      rcases heof with h1 | h1
-      · exact Or.inl (by simp [View.gone, upCloseV, h1])
-      · exact Or.inr h1
-    · simp only [hen, if_false] at hu
-      exact h.upe e he hr ha hu
+/-- closing upstream first makes no difference to a manager that then shuts down -/
+theorem shutV_upClose (t : Topo) (v : View) {p : Nat} (hp : p ≠ 0) (xc : Nat → Bool) :
+    shutV t (upCloseV v p) p xc = shutV t v p xc := by
+  have hb : (p != 0) = true := by simpa using hp
+  simp only [shutV, upCloseV, hb, if_true, View.mk.injEq, true_and, and_true]
+  refine ⟨rfl, ?_⟩
+  funext i
+  simp only [upd_apply]
+  split <;> rfl
 
 /-- the main thread of `p` shuts down -/
 theorem InvV.shut {t : Topo} (_wf : t.WF) {v : View} (h : InvV t v) {p : Nat} {xc : Nat → Bool}
@@ -132,7 +125,7 @@ theorem InvV.shut {t : Topo} (_wf : t.WF) {v : View} (h : InvV t v) {p : Nat} {x
     intro i x; simp only [shutV, upd_apply] at x; split at x <;> simp_all
   have hg := View.gone_mono (v := v) (v' := shutV t v p xc) (fun _ x => x) hrl
   refine ⟨h.srv, fun i hi => ?_, fun h0 c => ?_, fun q e hc haq hrq => ?_, fun g hg0 hrg => ?_,
-    fun e he hre hae hue => ?_, fun q e hc hrq => ?_⟩
+    fun g hrg => ?_, fun q e hc hrq => ?_, fun q e hc hrq => ?_⟩
   · have := h.wrk i hi
     simp only [shutV, upd_apply]
     split
@@ -171,20 +164,26 @@ theorem InvV.shut {t : Topo} (_wf : t.WF) {v : View} (h : InvV t v) {p : Nat} {x
       split
       · simp only [upd_apply, hgp, if_false]; exact this
       · exact this
-  · -- upe
-    simp only [shutV, upd_apply] at hre hae hue
-    by_cases hep : e = p
-    · simp [hep] at hre
-    · simp only [hep, if_false] at hre
-      have hue' : v.upOpen e = false := by
-        split at hue
-        · simpa [upd_apply, hep] using hue
-        · exact hue
-      rcases h.upe e he hre hae hue' with h1 | h1
-      · exact Or.inl (hg _ h1)
-      · right
-        simp only [shutV]
-        split <;> simp_all
+  · -- upo
+    simp only [shutV, upd_apply] at hrg ⊢
+    by_cases hgp : g = p
+    · simp [hgp] at hrg
+    · simp only [hgp, if_false] at hrg
+      have := h.upo g hrg
+      split
+      · simp only [upd_apply, hgp, if_false]; exact this
+      · exact this
+  · -- dclosed
+    simp only [shutV, upd_apply] at hrq ⊢
+    by_cases hqp : q = p
+    · subst hqp
+      have hcl := (h.down q e hc ha hr).2
+      simp [hc, hcl]
+    · simp only [hqp, if_false] at hrq
+      have := h.dclosed q e hc hrq
+      split
+      · rfl
+      · exact this
   · -- sent
     simp only [shutV, upd_apply] at hrq
     by_cases hqp : q = p
@@ -203,11 +202,8 @@ theorem InvV.shut {t : Topo} (_wf : t.WF) {v : View} (h : InvV t v) {p : Nat} {x
         · simp [h1]
         · cases hre : v.running e
           · simp
-          · cases hae : v.alive e
-            · simp
-            · rcases h.upe e he0 hre hae h1 with h2 | h2
-              · rw [hpar] at h2; simp [View.gone, ha, hr] at h2
-              · rw [hd] at h2; cases h2
+          · have := h.upo e hre
+            rw [h1] at this; cases this
       · left
         have : xc e = false := by simpa using hxe
         simp [shutV, hc, hcl, hd, this]
@@ -379,15 +375,21 @@ theorem step_inv {t : Topo} (wf : t.WF) {s s' : State} {l : Label} (hi : Inv t s
     · cases h
     rename_i hg
     simp only [Bool.not_eq_true', Bool.not_eq_false, Bool.and_eq_true] at hg
-    obtain ⟨⟨⟨hloop, _⟩, _⟩, _⟩ := hg
+    obtain ⟨⟨⟨hloop, hn0'⟩, _⟩, _⟩ := hg
+    have hn0 : n ≠ 0 := by simpa using hn0'
     split at h
     · split at h
       · cases h
       · rename_i heof
         cases h
-        refine InvV.upClose hi n ?_
-        show (s.alive (t.parent n) && s.downOpen n) = false
-        simpa using heof
+        have hloop' := hloop
+        unfold State.loopOk at hloop'
+        simp only [Bool.and_eq_true, bne_iff_ne, ne_eq] at hloop'
+        unfold Inv
+        rw [view_shutdownNode]
+        show InvV t (shutV t (upCloseV s.view n) n (fun _ => false))
+        rw [shutV_upClose t s.view hn0]
+        exact InvV.shut wf hi hloop'.1.2 hloop'.2 hloop'.1.1.2 (fun _ x => by cases x)
     · rename_i m rest hin
       have hi0 : Inv t { s with inbox := upd s.inbox n rest } := hi.congr rfl
       have hl0 : ({ s with inbox := upd s.inbox n rest } : State).loopOk t n = true := hloop
